@@ -281,3 +281,8 @@ package dns
 // the implementation)
 //@ iface PrivateRdata.Unpack
 //@   modifies nothing
+//@ iface hash.Hash.Reset
+//@   pure
+//@ extern crypto/sha1.New
+//@   ensures ret0 != nil
+//@   pure
